@@ -1227,10 +1227,12 @@ class ExprMixin:
                     (kind != 'gen' or isinstance(node.generators[0].iter, (ast.Name, ast.Attribute, ast.Tuple, ast.List))
                      or self._const_range(node.generators[0].iter)):
                 # a small concrete collection (a literal, the items of a fully known dictionary): one exact evaluation per item
-                if isinstance(g0, (TupleV, ListV)) and g0.items is not None and len(g0.items) <= 16 and \
-                        not getattr(g0, 'loop_open', False):
+                if isinstance(g0, (TupleV, ListV)) and g0.items is not None and (len(g0.items) <= 16 or getattr(g0, 'exact_ok', False)) \
+                        and not getattr(g0, 'loop_open', False):
                     r = self._comprehension_exact(node, elt, kind, list(g0.items))
                     if r is not None:
+                        if getattr(g0, 'exact_ok', False) and isinstance(r, (ListV, DictV)):
+                            r.exact_ok = True      # still a collection of constants of the folded literal
                         return r
                 src0 = getattr(g0, 'src', None)
                 if isinstance(g0, IterV) and isinstance(src0, PyLit) and isinstance(src0.value, dict) and len(src0.value) <= 300 \
